@@ -259,7 +259,8 @@ def check_col(ctx):
     ctx.check(R, alloc[0] if alloc else fn, "one column per unique id, one row per epoch", oka, "allocation %s" % (A.unparse(alloc[0].value) if alloc else None), key="alloc")
     ctx.check(R, fn, "returns the filled matrix", M is not None and bool(alloc), "returns %s" % (A.unparse(rets[0].value) if rets else None), key="ret", nontrivial=False)
     M = M or "constant_part"
-    c0 = [s for s in fn.body if isinstance(s, ast.Assign) and canon(s.targets[0]) == canon(parse("%s[:, 0]" % M))]
+    # (the matrix was allocated with a two-element shape above: `M[..., 0]` is `M[:, 0]`)
+    c0 = [s for s in fn.body if isinstance(s, ast.Assign) and canon(A.ellipsis_2d(s.targets[0])) == canon(parse("%s[:, 0]" % M))]
     ctx.check(R, fn, "column 0 is all ones (every epoch has the reference velocity)", len(c0) == 1 and A.const_value(c0[0].value) in (1, 1.0), "column 0 = %s" % (A.unparse(c0[0].value) if c0 else None), key="col0")
     loops = [l for l in fn.body if isinstance(l, ast.For)]
     ok = False
@@ -313,6 +314,7 @@ def check_col(ctx):
         parts = "(get_constant_term_design_matrix(data, ids), np.vander(data._t_bmjd - data._t_ref_bmjd, N=poly_trend, increasing=True)[:, 1:])"
         # both blocks are 2-D (n_times x k): hstack, column_stack and concatenate(axis=1) all put them side by side
         wants = ["np.hstack(%s)", "np.concatenate(%s, axis=1)", "np.concatenate(%s, axis=-1)", "np.column_stack(%s)", "np.concatenate(%s, 1)"]
+        v = A.ellipsis_2d(v)   # np.vander returns a two-dimensional array
         okt = canon(v) in {canon(parse(w % parts)) for w in wants} | {canon(parse(w % parts.replace("(get", "[get").replace(":])", ":]]"))) for w in wants}
         why = "returns `%s`" % A.unparse(v)[:140]
     ctx.check(R, tf, "trend matrix = [constant/offset columns | (t - t_ref)^1.. ]", okt, why, key="trend")
